@@ -7,3 +7,4 @@ import LyModel.Props.C12
 #print axioms LyModel.Props.C12.json_typing_rfc7951
 #print axioms LyModel.Props.C12.json_tree_refines_spec
 #print axioms LyModel.Props.C12.json_document_faithful
+#print axioms LyModel.Props.C12.json_typing_covers_rfc7951
